@@ -510,7 +510,7 @@ func (e *Explorer) visitNew(path []Op, in Inst, props []string) *Found {
 	}
 	if !e.NoState {
 		setInflight(func() string { return fmt.Sprintf("%s path=%v CheckState", e.Sys.Name(), path) })
-		v := safeCheck(in.CheckState, props, "state observers")
+		v := checkStatePure(in, props)
 		if v == nil && e.OutGuard {
 			v = outGuardCheck("state observers")
 		}
@@ -601,7 +601,7 @@ func (e *Explorer) ReplayOne(path []Op, last *Op) *Found {
 		return nil
 	}
 	if !e.NoState {
-		v := safeCheck(in.CheckState, props, "state observers")
+		v := checkStatePure(in, props)
 		if v == nil && e.OutGuard {
 			v = outGuardCheck("state observers")
 		}
@@ -628,4 +628,21 @@ func (e *Explorer) ReplayOne(path []Op, last *Op) *Found {
 		}
 	}
 	return nil
+}
+
+// checkStatePure runs the complete state oracle and then requires the container to be exactly as it was:
+// every observer of the oracle (look-ups, navigation, iteration, String, set operations, ..) has run, and a
+// structure built lazily by a reader is a write.
+func checkStatePure(in Inst, props []string) *Viol {
+	var k0 string
+	kv := safeCheck(func() *Viol { k0 = in.Key(); return nil }, nil, "fingerprint")
+	v := safeCheck(in.CheckState, props, "state observers")
+	if v == nil && kv == nil {
+		var k1 string
+		if safeCheck(func() *Viol { k1 = in.Key(); return nil }, nil, "fingerprint") == nil && k1 != k0 {
+			v = &Viol{Props: append(append([]string{}, props...), "C15", "C18"), Class: "invariant",
+				Msg: fmt.Sprintf("the read-only operations of the state oracle changed the container's state:\n before %s\n after  %s", clip(k0, 400), clip(k1, 400))}
+		}
+	}
+	return v
 }
